@@ -3,6 +3,43 @@ from . import hir as H
 from .core import Anchor
 
 
+DEFAULT_CRATE = None          # set by the runner: lets provenance / path conditions look one level into local helpers
+_HELPER_DEPTH = [0]
+
+
+def set_crate(crate):
+    global DEFAULT_CRATE
+    DEFAULT_CRATE = crate
+
+
+def local_callee_body(call, caller=None):
+    """HIR body of the same-file helper a Call/MethodCall node invokes, else None.  Only helpers defined in the
+    caller's own file are looked into: functions of other modules are interfaces with their own obligations."""
+    b = _local_callee_body(call)
+    if b is not None and caller is not None and b.get("file") != caller.get("file"):
+        return None
+    return b
+
+
+def _local_callee_body(call):
+    if DEFAULT_CRATE is None or call is None or call.get("k") not in ("Call", "MethodCall"):
+        return None
+    c = H.strip_generics(H.callee(call) or "")
+    b = DEFAULT_CRATE.hir.get(c)
+    if b is None or b.get("kind") not in ("Fn", "AssocFn"):
+        return None
+    return b
+
+
+def _subst_params(s, args):
+    import re as _re
+
+    def rep(m):
+        i = int(m.group(1))
+        return args[i] + m.group(2) if i < len(args) else m.group(0)
+    return _re.sub(r"\$(\d+)((?:\.\w+)*)", lambda m: (args[int(m.group(1))] if int(m.group(1)) < len(args) else "$" + m.group(1)) + m.group(2), s)
+
+
 def peel(n):
     """Strip blocks with a single tail expression, casts to the same type are kept."""
     while n is not None and n.get("k") == "Block" and not n["stmts"] and n.get("expr") is not None:
@@ -51,7 +88,8 @@ class Canon:
     * comparison operands are ordered (`a > b` is printed as `b < a`), `!` over comparisons folded.
     """
 
-    def __init__(self, body, inline=True, max_depth=8, force=False, inline_state=False):
+    def __init__(self, body, inline=True, max_depth=8, force=False, inline_state=False, helpers=False):
+        self.helpers = helpers
         """force=True: provenance mode — every let-bound local (also `mut` ones) is replaced by its
         initialiser regardless of size; used to answer "where does this value come from"."""
         self.body = body
@@ -274,6 +312,9 @@ class Canon:
             return "$%d%s" % (d[1], d[2])
         stable = not d[3] and n["lid"] not in self.assigned
         if self.force and depth < self.max_depth:
+            r = self._through_helper(d, depth) if self.helpers else None
+            if r is not None:
+                return r
             return self.c(d[1], depth + 1) + d[2]
         if self.inline and stable and depth < self.max_depth and self._simple(d[1]) and \
                 (self.inline_state or self.snapshot_free(n["lid"], d)):
@@ -286,6 +327,41 @@ class Canon:
             used = [v for v in self._names.values() if v and (v == base or v.startswith(base + "#"))]
             self._names[key] = base if not used else "%s#%d" % (base, len(used))
         return self._names[key] or n["name"]
+
+    def _through_helper(self, d, depth):
+        """provenance through one level of local helper: `let (a, b) = helper(x)?` -> a is the helper's returned
+        component 0 with the helper's parameters replaced by the caller's arguments"""
+        pos = d[2]
+        if not pos or _HELPER_DEPTH[0] >= 2:
+            return None
+        init = peel(d[1])
+        if init.get("k") == "Try":
+            init = peel(init["e"])
+        body = local_callee_body(init, self.body)
+        if body is None or body is self.body:
+            return None
+        tail = peel(tail_expr(body["body"]) or {})
+        if tail.get("k") == "Call" and H.strip_generics(H.callee(tail) or "").endswith(("Result::Ok", "Option::Some")) and tail["args"]:
+            tail = peel(tail["args"][0])
+        idxs = [x for x in pos.split(".") if x]
+        if not idxs or not idxs[0].isdigit() or tail.get("k") != "Tup":
+            return None
+        k = int(idxs[0])
+        if k >= len(tail["elems"]):
+            return None
+        _HELPER_DEPTH[0] += 1
+        try:
+            sub = Canon(body, inline=True, force=True, max_depth=self.max_depth, helpers=True)
+            txt = sub.c(tail["elems"][k], 0)
+        finally:
+            _HELPER_DEPTH[0] -= 1
+        args = ([init["recv"]] if init.get("k") == "MethodCall" else []) + list(init["args"])
+        # callee parameter numbering skips a leading self
+        params = list(body.get("params") or ())
+        if params and params[0].get("k") == "Bind" and params[0].get("name") == "self":
+            args = args[1:] if init.get("k") == "MethodCall" else args
+        argc = [self.c(a, depth + 1) for a in args]
+        return _subst_params(txt, argc) + "".join("." + x for x in idxs[1:])
 
     def __call__(self, n):
         return self.c(n, 0)
@@ -451,11 +527,14 @@ def top_statements(body_node):
 class Index:
     """Parent links + path-condition extraction for one HIR body."""
 
-    def __init__(self, body, inline_state=False):
+    def __init__(self, body, inline_state=False, provenance=False):
+        """provenance=True: conditions are printed in provenance form (every local replaced by where its value
+        comes from, looking one level into local helpers) — stable under renaming / helper extraction"""
         self.body = body
         self.root = body["body"]
         self.parent = {}
-        self.canon = Canon(body, inline_state=inline_state)
+        self.provenance = provenance
+        self.canon = Canon(body, inline_state=inline_state, force=True, helpers=True) if provenance else Canon(body, inline_state=inline_state)
         for n, p in H.walk(self.root):
             self.parent[id(n)] = p
 
@@ -521,9 +600,36 @@ class Index:
                 continue
             if x.get("k") == "Try":
                 out.append({"cond": "ok " + self.canon(x["e"]), "kind": "try", "node": x, "errs": []})
+                out.extend(self._imported(x))
         # assert!(cond) style
         if e0.get("mac", "").split(">")[0] in ("assert", "assert_eq", "assert_ne", "debug_assert", "debug_assert_eq"):
             pass
+        return out
+
+    def _imported(self, try_node):
+        """conditions a local helper establishes on its successful return, in the caller's terms (one level)"""
+        call = peel(try_node["e"])
+        body = local_callee_body(call, self.body)
+        if body is None or body is self.body or _HELPER_DEPTH[0] >= 1:
+            return []
+        tail = tail_expr(body["body"])
+        if tail is None:
+            return []
+        _HELPER_DEPTH[0] += 1
+        try:
+            sub = Index(body, provenance=self.provenance)
+            pcs = [p for p in sub.path_conditions(tail) if p["kind"] in ("try", "guard", "guard-else", "let-else")]
+        finally:
+            _HELPER_DEPTH[0] -= 1
+        args = ([call["recv"]] if call.get("k") == "MethodCall" else []) + list(call["args"])
+        params = list(body.get("params") or ())
+        if params and params[0].get("k") == "Bind" and params[0].get("name") == "self" and call.get("k") == "MethodCall":
+            args = args[1:]
+        argc = [self.canon(a) for a in args]
+        out = []
+        for p in pcs:
+            out.append({"cond": _subst_params(p["cond"], argc), "kind": "try" if p["kind"] == "try" else "imported-guard",
+                        "node": try_node, "errs": [], "via": body["path"]})
         return out
 
     def split_or(self, c):
